@@ -763,6 +763,19 @@ keep.late = setmetatable({id = -2}, {})
 getmetatable(keep.late).__gc = function(o) emit("gc-late-must-not-run") end
 emit("end of chunk")
 `},
+	{Name: "gc-remeta", Src: `
+keep = {}
+-- values marked for finalization more than once, with another metatable in between
+for i = 1, $D % 5 + 1 do
+  keep[i] = setmetatable({id = i}, {__gc = function(o) emit("gc-first-metatable", o.id) end})
+  setmetatable(keep[i], {__gc = function(o) emit("gc-second-metatable", o.id, getmetatable(o) == getmetatable(keep[i])) end})
+end
+keep.same = setmetatable({id = -1}, {__gc = function(o) emit("gc-same", o.id) end})
+setmetatable(keep.same, getmetatable(keep.same))
+keep.swap = setmetatable({id = -2}, {__gc = function(o) emit("gc-swap-first", o.id) end})
+getmetatable(keep.swap).__gc = function(o) emit("gc-swap-second", o.id) end
+emit("end of chunk")
+`},
 	{Name: "method-and-field-calls", Src: `
 local Stack = {}
 Stack.__index = Stack
